@@ -16,7 +16,7 @@ from vlib.core import Stage, fail
 ID = "C16"
 MANIFEST = {
     "category": "fault_enumeration",
-    "text": "Generated fault injection with a differential oracle: deep AHBs x content evaluation results x a drawn non-empty set of nodes (groups, segments, free-text elements, entries of value pools) each receiving a structurally invalid expression (neutral-vs-requirement O/X mix or bare hint/format-constraint pair at any depth; under any indicator; alone, as a later modal-mark part, or hidden in a package; also every entry of one value pool at once). validate_deep_anwendungshandbuch of the faulted AHB must not raise InvalidExpressionError; compared with the run on the AHB where each injected expression is replaced by 'Kann': NotImplementedError in one iff in the other, same discriminators in the same order, every non-faulted node's result equal (value pools with a faulted entry included: the entry counts as selectable), every faulted group/segment/free-text node reported optional with a non-empty reason as hint.",
+    "text": "Generated fault injection with a differential oracle: deep AHBs x content evaluation results x a drawn non-empty set of nodes (groups, segments, free-text elements, entries of value pools) each receiving a structurally invalid expression (neutral-vs-requirement O/X mix or bare hint/format-constraint pair at any depth; under any indicator; alone, as a later modal-mark part, or hidden in a package; also every entry of one value pool at once). validate_deep_anwendungshandbuch of the faulted AHB must not raise InvalidExpressionError; compared with the run on the AHB where each injected expression is replaced by 'Kann': NotImplementedError in one iff in the other, same discriminators in the same order, every non-faulted node's result equal (value pools with a faulted entry included: the entry counts as selectable), every faulted group/segment/free-text node reported optional with the reason as hint - the message of the InvalidExpressionError that evaluating the injected expression on its own raises under the same content. A third of the cases validate the same faulted AHB a second time, in the same process, under a different content evaluation result.",
     "note": "Trusted: gen.g_dom_invalid / ref.validity (the injected expressions are invalid by the structural criterion of C06), attrs equality of results. Faults are sampled, not enumerated exhaustively: subsets of up to 5 nodes per tree.",
     "technique": "property-based fault injection with a differential oracle (faulted AHB vs the same AHB with 'Kann' at the faulted nodes)",
 }
@@ -51,9 +51,36 @@ def kann_tree(tree):
     return clone
 
 
+def _reason(expr_text, tree, cer):
+    """the reason why the expression is invalid under this content: the message of the error its evaluation raises"""
+    from ahbicht.expressions.ahb_expression_evaluation import evaluate_ahb_expression_tree
+    from ahbicht.expressions.expression_resolver import parse_expression_including_unresolved_subexpressions
+
+    vtree.setup(tree, cer)
+
+    async def evaluate():
+        parsed = await parse_expression_including_unresolved_subexpressions(expr_text, resolve_packages=True)
+        return await evaluate_ahb_expression_tree(parsed)
+
+    res = sut.call(evaluate)
+    if res.ok or not res.is_a(sut.InvalidExpressionError):
+        raise AssertionError(f"injected expression {expr_text!r} did not raise InvalidExpressionError on its own: {res!r}")
+    return res.exc.error_message
+
+
 def check(case):
+    info = check_once(case, case["cer"])
+    if case.get("cer2") is not None:
+        # the same AHB validated again in the same process with other content: the reasons are those of *this* content
+        second = check_once(case, case["cer2"])
+        info["second_validation"] = True
+        info["visited_faults"] += second["visited_faults"]
+    return info
+
+
+def check_once(case, cer):
     deep = _api()
-    tree, cer, soll = case["tree"], case["cer"], case["soll"]
+    tree, soll = case["tree"], case["soll"]
     reference = kann_tree(tree)
     vtree.setup(tree, cer)
     faulted = sut.call(deep, vtree.build(tree), soll)
@@ -75,10 +102,11 @@ def check(case):
     got, want = faulted.value, baseline.value
     if [r.discriminator for r in got] != [r.discriminator for r in want]:
         fail("coverage", f"faulted run reports {[r.discriminator for r in got][:15]}, the 'Kann' run {[r.discriminator for r in want][:15]}")
-    fault_nodes = {}
+    fault_nodes, fault_exprs = {}, {}
     for kind, node, expr, index in vtree.expressions(tree):
         if expr.get("fault") and index is None:
             fault_nodes[node["d"]] = kind
+            fault_exprs[node["d"]] = expr["s"]
     subtree_sizes = _subtree_sizes(tree)
     for mine, theirs in zip(got, want):
         d = mine.discriminator
@@ -93,6 +121,10 @@ def check(case):
             hint = mine.validation_result.hints
             if not (isinstance(hint, str) and hint.strip()):
                 fail("no-reason", f"faulted node {d} carries no reason as hint: {hint!r}")
+            expected_reason = _reason(fault_exprs[d], tree, cer)
+            if hint != expected_reason:
+                fail("wrong-reason", f"faulted node {d} ({fault_exprs[d]!r}) under rc={cer['rc']}: the hint is {hint!r} but the "
+                     f"reason why the expression is invalid under this content is {expected_reason!r}")  # fmt: skip
         elif mine != theirs:
             fail("other-node-changed", f"node {d} is not faulted but its result differs: {mine.validation_result} vs with 'Kann': {theirs.validation_result}")
     pools = [node for kind, node, _ in vtree.nodes(tree) if kind == "vp" and any(e["expr"].get("fault") for e in node["pool"])]
@@ -135,6 +167,8 @@ def classify(case, info):
         labels.append("hidden-in-package")
     if case.get("later_part"):
         labels.append("fault-in-later-part")
+    if info.get("second_validation"):
+        labels.append("validated-twice-with-different-content")
     if info.get("whole_pool"):
         labels.append("all-entries-of-a-pool-faulted")
     nontrivial = (info["visited_faults"] >= 2 and len(info["levels"]) >= 2) or info["big_subtree"]
@@ -180,7 +214,8 @@ def strategy(tier):
                 node["expr"] = new
             else:
                 node["pool"][index]["expr"] = new
-        return {"tree": tree, "cer": draw(vtree.g_cer()), "soll": draw(st.booleans()), "hidden_in_package": hidden, "later_part": later}
+        return {"tree": tree, "cer": draw(vtree.g_cer()), "soll": draw(st.booleans()), "hidden_in_package": hidden, "later_part": later,
+                "cer2": draw(vtree.g_cer()) if draw(st.sampled_from(range(3))) == 0 else None}
 
     return build()
 
